@@ -25,6 +25,8 @@ def demo(wt, files):
     return ok, out
 for kd in sorted(glob.glob(os.path.join(wt, "out", "*"))):
     k = os.path.basename(kd)
+    if not os.path.isdir(kd) or not os.path.exists(os.path.join(kd, "meta.json")):
+        continue
     meta = json.load(open(os.path.join(kd, "meta.json")))
     tests = [f for f in glob.glob(os.path.join(kd, "*_test.go"))]
     files = []
